@@ -7,6 +7,7 @@ import (
 	"encoding/json"
 	"errors"
 	"fmt"
+	"net"
 	"os"
 	"path/filepath"
 	"runtime"
@@ -15,8 +16,10 @@ import (
 
 	"github.com/tetratelabs/wazero"
 	"github.com/tetratelabs/wazero/api"
+	experimentalsock "github.com/tetratelabs/wazero/experimental/sock"
 	"github.com/tetratelabs/wazero/imports/wasi_snapshot_preview1"
 	"github.com/tetratelabs/wazero/internal/testing/proxy"
+	"github.com/tetratelabs/wazero/internal/wasm"
 	"github.com/tetratelabs/wazero/sys"
 	"github.com/tetratelabs/wazero/verifharness/common"
 )
@@ -101,8 +104,18 @@ func runTuple(res *common.Result, ee *engineEnv, engine string, it *item, tuple 
 	_ = os.WriteFile(filepath.Join(dir, "a"), []byte("hello"), 0o644)
 	_ = os.Mkdir(filepath.Join(dir, "d"), 0o755)
 	_ = os.WriteFile(filepath.Join(dir, "d", "x"), []byte("x"), 0o644)
-	mod, err := ee.rt.InstantiateModule(ctx, ee.proxy, wazero.NewModuleConfig().WithName("").
-		WithFSConfig(wazero.NewFSConfig().WithDirMount(dir, "/")).WithStdin(strings.NewReader("stdin-data")))
+	sockWorld := strings.HasPrefix(it.F, "sock_")
+	var mod api.Module
+	var err error
+	if sockWorld {
+		// the socket functions run in a world of their own: descriptor 3 is a pre-opened TCP listener, 4 a connection
+		// accepted from it whose peer has sent 8 bytes (classes: preopen = the listener, file = the connection)
+		sctx := experimentalsock.WithConfig(ctx, experimentalsock.NewConfig().WithTCPListener("127.0.0.1", 0))
+		mod, err = ee.rt.InstantiateModule(sctx, ee.proxy, wazero.NewModuleConfig().WithName("").WithStdin(strings.NewReader("stdin-data")))
+	} else {
+		mod, err = ee.rt.InstantiateModule(ctx, ee.proxy, wazero.NewModuleConfig().WithName("").
+			WithFSConfig(wazero.NewFSConfig().WithDirMount(dir, "/")).WithStdin(strings.NewReader("stdin-data")))
+	}
 	if err != nil {
 		res.AddFail("infra:instantiate", err.Error())
 		return
@@ -116,20 +129,51 @@ func runTuple(res *common.Result, ee *engineEnv, engine string, it *item, tuple 
 		}
 		return r[0], nil
 	}
+	if sockWorld {
+		lf, ok := mod.(*wasm.ModuleInstance).Sys.FS().LookupFile(3)
+		if !ok {
+			res.AddFail("infra:listener", "no listener at descriptor 3")
+			return
+		}
+		ad, ok := lf.File.(interface{ Addr() *net.TCPAddr })
+		if !ok {
+			res.AddFail("infra:listener", "descriptor 3 has no address")
+			return
+		}
+		peer, err := net.DialTCP("tcp", nil, ad.Addr())
+		if err != nil {
+			res.AddFail("infra:dial", err.Error())
+			return
+		}
+		defer peer.Close()
+		if e, err := call("sock_accept", 3, 0, 900); err != nil || e != 0 {
+			res.AddFail("infra:accept", fmt.Sprintf("%v %v", e, err))
+			return
+		}
+		_, _ = peer.Write([]byte("PEERDATA"))
+		// a second connection is pending, so that sock_accept never has to wait for one
+		peer2, err := net.DialTCP("tcp", nil, ad.Addr())
+		if err == nil {
+			defer peer2.Close()
+		}
+		time.Sleep(5 * time.Millisecond)
+	}
 	// descriptor table: 4 = file a (rw), 5 = directory d, 6 = closed
 	mem.Write(1000, []byte("a"))
 	mem.Write(1010, []byte("d"))
-	if e, err := call("path_open", 3, 0, 1000, 1, 0, 1<<1|1<<6, 0, 0, 900); err != nil || e != 0 {
-		res.AddFail("infra:setup", fmt.Sprintf("open a: %v %v", e, err))
-		return
+	if !sockWorld {
+		if e, err := call("path_open", 3, 0, 1000, 1, 0, 1<<1|1<<6, 0, 0, 900); err != nil || e != 0 {
+			res.AddFail("infra:setup", fmt.Sprintf("open a: %v %v", e, err))
+			return
+		}
+		call("path_open", 3, 0, 1010, 1, 2, 0, 0, 0, 900)
+		call("path_open", 3, 0, 1000, 1, 0, 1<<1, 0, 0, 900)
+		call("fd_close", 6)
+		// ... and a history: a descriptor was moved far up (fd_renumber to 100) and closed there, so the table once was larger
+		call("path_open", 3, 0, 1000, 1, 0, 1<<1, 0, 0, 900)
+		call("fd_renumber", 6, 100)
+		call("fd_close", 100)
 	}
-	call("path_open", 3, 0, 1010, 1, 2, 0, 0, 0, 900)
-	call("path_open", 3, 0, 1000, 1, 0, 1<<1, 0, 0, 900)
-	call("fd_close", 6)
-	// ... and a history: a descriptor was moved far up (fd_renumber to 100) and closed there, so the table once was larger
-	call("path_open", 3, 0, 1000, 1, 0, 1<<1, 0, 0, 900)
-	call("fd_renumber", 6, 100)
-	call("fd_close", 100)
 	// memory image
 	img := make([]byte, memSize)
 	for i := range img {
